@@ -8,6 +8,7 @@ failing inputs and to sanity-check the RW information the validator trusts.
 import random
 
 M64 = (1 << 64) - 1
+MS_SIGS = ["vu", "uvuv", "vvvv", "vuuvuu"]      # harness/c05.cpp ms0..ms3
 VIEW_BITS = {"r8": 8, "r16": 16, "r32": 32, "r64": 64}
 TYPE_BITS = {"u8": 8, "u16": 16, "u32": 32, "u64": 64, "ptr": 64, "v128": 128, "v256": 256, "v512": 512, "k16": 16}
 
@@ -106,6 +107,8 @@ def render(prog):
             out.append("jt %s %s %s" % (st[1], st[2], " ".join(str(n) for n in st[3])))
         elif k == "call":
             out.append("call %d %s %s" % (len(st[2]), st[1] if st[1] else "-", " ".join(str(a) for a in st[2])))
+        elif k == "callw":
+            out.append("callw %d %s %s" % (st[1], st[2] if st[2] else "-", " ".join(str(a) for a in st[3])))
         elif k == "raw":
             out.append(st[1])
         elif k == "ret":
@@ -256,6 +259,20 @@ class Interp:
             if k == "ret":
                 rv = self.rd(R(st[1])) if st[1] else 0
                 return rv, bytes(self.mem), self.calls
+            if k == "callw":      # Win64 callee: 'v' arguments are logged as two 64-bit halves
+                sig = MS_SIGS[st[1]]
+                log = []
+                for c, a in zip(sig, st[3]):
+                    if c == "v":
+                        v = self.val(a, 128)
+                        log += [v & M64, v >> 64]
+                    else:
+                        log.append(self.val(a, 64))
+                self.calls.append(log)
+                if st[2]:
+                    self.wr(R(st[2]), mix(log))
+                self.noflags()
+                continue
             if k == "call":
                 args = [self.val(a, 64) for a in st[2]]
                 self.calls.append(args)
